@@ -22,6 +22,9 @@ fn main() {
     };
     let code = match args.id.as_str() {
         "C01" => props::c01::main(&args),
+        "C02" => props::c02::main(&args),
+        "C07" => props::c07::main(&args),
+        "C08" => props::c08::main(&args),
         other => {
             eprintln!("unknown property {other}");
             2
